@@ -296,27 +296,34 @@ static void destroy_watchlist(Tickit *t, TickitWatch *watches, void (*cancelfunc
 
 static void invoke_watch(TickitWatch *watch, TickitEventFlags flags, void *info)
 {
-  (*watch->fn)(watch->t, flags, info, watch->user);
+  /* the callback may cancel, and thereby free, the watch */
+  Tickit *t = watch->t;
+  int type = watch->type;
+
+  (*watch->fn)(t, flags, info, watch->user);
 
   /* Remove oneshot watches from the list */
   TickitWatch **prevp;
-  switch(watch->type) {
+  switch(type) {
     case WATCH_NONE:
     case WATCH_IO:
     case WATCH_SIGNAL:
       return;
 
     case WATCH_TIMER:
-      prevp = &watch->t->timers;
+      prevp = &t->timers;
       break;
 
     case WATCH_LATER:
-      prevp = &watch->t->laters;
+      prevp = &t->laters;
       break;
 
     case WATCH_PROCESS:
-      prevp = &watch->t->processes;
+      prevp = &t->processes;
       break;
+
+    default:
+      return;
   }
 
   while(*prevp) {
